@@ -517,8 +517,12 @@ class Interp(object):
 
     def make_extractor(self, x):
         if x[0] == "fields":
+            # the extractor hands out a dictionary that belongs to the application (the same object every time,
+            # as `lambda e: e.__dict__` or `lambda e: e.details` do): logging must leave it alone
             fs = self.fields(x[1])
-            return lambda e: dict(fs)
+            self.app_dicts = getattr(self, "app_dicts", [])
+            self.app_dicts.append((fs, dict(fs)))
+            return lambda e: fs
         exn = x[1]
 
         def bad(e):
@@ -1090,6 +1094,9 @@ def _check_renders(self):
                     self.notes.append("render_mismatch:dest%s" % did)
             else:
                 last = m
+    for d, snapshot in getattr(self, "app_dicts", []):
+        if list(d.keys()) != list(snapshot.keys()) or any(d[k] is not snapshot[k] for k in snapshot):
+            self.notes.append("caller_dict_mutated:the dictionary returned by an exception extractor now has keys %r" % sorted(map(str, d.keys())))
     if ONESHOT.taken:
         self.notes.append("caller_dict_mutated:an iterator passed as a field value was advanced by %d items" % ONESHOT.taken)
         ONESHOT.taken = 0
